@@ -273,6 +273,14 @@ def suite_reuse(rng, tier):
         for y in (LBL_B6, LBL_BC, x):
             seqs.append((("send", x, "ok"), ("fragstart", x), ("fragalias", y), ("cont",), ("send", x, "ok"), ("cont",), ("send", x, "ok")))
             seqs.append((("fragstart", x), ("fragalias", y), ("cont",), ("cont",), ("send", x if y.kind == "B" else y, "ok"), ("send", x, "ok")))
+    # explicit re-use labels passed by the caller in the middle of bounded runs: they neither count as a
+    # substitution nor restart the run
+    for mx in (1, 2, 3):
+        for k in range(0, mx + 1):
+            for nru in (1, 2):
+                for how in ("ok", "ext", "frag"):
+                    seqs.append((("max", mx), ("send", LBL_A6, "ok")) + (("send", LBL_A6, "ok"),) * k + (("send", LBL_RU, how),) * nru
+                                + (("send", LBL_A6, "ok"),) * (mx + 2))
     # long runs against the counter
     for mx in (1, 2, 3, 254, 255):
         seqs.append((("max", mx),) + (("send", LBL_A6, "ok"),) * (mx + 3 if mx < 10 else 260))
@@ -574,6 +582,27 @@ def suite_states(rng, tier):
             s.decap("h:%04x01%s%08x" % (0x7000 | egl, last.hex(), crc))
             s.dec_newpdu()
             out.append(s)
+    # trains announcing a WRONG total length (smaller than protocol type + label, zero, off by a few, larger)
+    # whose end fragment carries the CRC computed over the ANNOUNCED fields: the CRC verifies, only the length
+    # comparison over the naturals can refuse them
+    for lab, lt, lbytes in ((LBL_BC, 0xa0, b""), (LBL_A6, 0x80, b"abcdef"), (LBL_A3, 0x90, b"abc")):
+        for plen in (0, 1, 5):
+            true_tl = plen + 2 + len(lbytes)
+            for tl in sorted(set([1, 2, 3, len(lbytes), len(lbytes) + 1, len(lbytes) + 2, true_tl - 1, true_tl, true_tl + 1, true_tl + 7, 65535]) - {0}):
+                for p1 in sorted(set([0, plen // 2])):
+                    s = Session("st-tl-lie-%s-%d-%d-%d" % (lab.kind, plen, tl, p1))
+                    s.strict = False
+                    s.dec_new(2, 32, None)
+                    s.prov(32, 0)
+                    s.prov(32, 0)
+                    data = gen_bytes(600 + plen, plen)
+                    gl = 5 + len(lbytes) + p1
+                    s.decap("h:%02x%02x01%04x0800%s%s" % (lt, gl, tl, lbytes.hex(), data[:p1].hex()))
+                    crc = ref_gse_crc(data, 0x0800, tl, lbytes)
+                    egl = 1 + (plen - p1) + 4
+                    s.decap("h:%04x01%s%08x" % (0x7000 | egl, data[p1:].hex(), crc))
+                    s.dec_newpdu()
+                    out.append(s)
     # hand-built trains whose first fragment uses label re-use: conforming (total length and CRC without the
     # label) must be delivered, non-conforming (total length / CRC counting the resolved label) must not
     for lab in (LBL_A6, LBL_A3):
@@ -681,10 +710,15 @@ def suite_states(rng, tier):
 
 def _train(s, rng, pdu, fid, pt, label, first_buf, frag_bufs):
     """emit a whole fragmented transfer into registers without feeding it; returns encap op indices"""
-    idx = [s.encap(pdu, fid, pt, label, bs_zero(first_buf))]
-    chain = s.ops[idx[0]]["reg"]
-    for bl in frag_bufs:
-        idx.append(s.encap_frag(pdu, chain, bs_zero(bl), cout=chain))
+    # the registers are emptied first: continuation calls made after the train is finished are no operations
+    # (bad-op) and must leave an EMPTY register behind, so that `walk p:1+p:2+…` over all of them stays valid
+    regs = [s.reg() for _ in range(1 + len(frag_bufs))]
+    for r in regs:
+        s.setreg(r, "-")
+    idx = [s.encap(pdu, fid, pt, label, bs_zero(first_buf), reg=regs[0])]
+    chain = regs[0]
+    for bl, r in zip(frag_bufs, regs[1:]):
+        idx.append(s.encap_frag(pdu, chain, bs_zero(bl), reg=r, cout=chain))
     return idx
 
 
@@ -892,6 +926,59 @@ def suite_merge(rng, tier):
                         s.expect.append((d, s.ops[trains[src][0]]["pdu"], ["C07"], s.ops[trains[src][0]]["label"]))
                     else:
                         s.expect_frag.append((d, ["C07"]))
+                out.append(s)
+    # a train whose first fragment carries the RE-USE label (resolved against the label remembered at that
+    # moment and kept in the context), with complete packets of every kind, padding, a frame boundary or a
+    # rejected packet in between: whatever happens to the label memory afterwards, the PDU is delivered at its
+    # own end fragment under the label resolved at the first fragment
+    strays = ["bc-complete", "a3-complete", "reset", "padding", "badcrc-end-other", "unknown-mand", "reuse-complete", "none"]
+    for lab in (LBL_A6, LBL_A3):
+        for st1 in strays:
+            for st2 in strays:
+                if tier == "quick" and st1 != "none" and st2 != "none" and rng.random() < 0.6:
+                    continue
+                s = Session("mergeU-%s-%s-%s" % (lab.kind, st1, st2))
+                s.strict = False
+                s.expect = []
+                s.expect_frag = []
+                s.enc("new")
+                s.dec_new(2, 64, None)
+                for _ in range(4):
+                    s.prov(64, 0)
+                i = s.encap(bs_gen(1, 4), 0, 0x0800, lab, bs_zero(32))
+                s.decap_if("p:%d" % s.ops[i]["reg"], of=i)
+                s.prov(64, 0)
+                pdu = bs_gen(70 + len(st1) + len(st2), 30)
+                tr = _train(s, rng, pdu, 1, 0x0801, lab, 12, [10, 64])       # first (re-use label), intermediate, end
+
+                def stray(kind, s=s):
+                    if kind == "bc-complete":
+                        j = s.encap(bs_gen(3, 5), 0, 0x0800, LBL_BC, bs_zero(32))
+                        s.decap_if("p:%d" % s.ops[j]["reg"])
+                        s.prov(64, 0)
+                    elif kind == "a3-complete":
+                        j = s.encap(bs_gen(4, 5), 0, 0x0800, LBL_B3, bs_zero(32))
+                        s.decap_if("p:%d" % s.ops[j]["reg"])
+                        s.prov(64, 0)
+                    elif kind == "reuse-complete":
+                        s.decap("h:f0050800aabbcc")
+                        s.prov(64, 0)
+                    elif kind == "reset":
+                        s.dec_reset()
+                    elif kind == "padding":
+                        s.decap("z:4")
+                    elif kind == "badcrc-end-other":
+                        s.decap("h:700602aa00000000")
+                    elif kind == "unknown-mand":
+                        s.decap("h:e0050055aabbcc")
+                d = s.decap_if("p:%d" % s.ops[tr[0]]["reg"], of=tr[0])
+                s.expect_frag.append((d, ["C07"]))
+                stray(st1)
+                d = s.decap_if("p:%d" % s.ops[tr[1]]["reg"], of=tr[1])
+                s.expect_frag.append((d, ["C07"]))
+                stray(st2)
+                d = s.decap_if("p:%d" % s.ops[tr[2]]["reg"], of=tr[2])
+                s.expect.append((d, pdu, ["C07"], lab))
                 out.append(s)
     # restart: a new first fragment on the same id restarts only that id
     for r in range(20 if tier == "quick" else 200):
@@ -1264,14 +1351,25 @@ def suite_utils(rng, tier):
         s.add("u_parse %s h:%s" % (kind, ref.hex()), op="u_parse", kind=kind, wf=True, fields=f, ref=ref)
         return a
 
-    for k in range(n):
+    # the largest descriptions: GSE length 4090..4095 for every kind and label kind, then random ones
+    forced = []
+    for kind0 in "CFIE":
+        for lab0 in (LBL_A6, LBL_A3, LBL_BC, LBL_RU):
+            for gl0 in (4090, 4093, 4094, 4095):
+                hdr = {"C": 2 + lab0.wire_len(), "F": 5 + lab0.wire_len(), "I": 1, "E": 5}[kind0]
+                if kind0 in "IE" and lab0 is not LBL_A6:
+                    continue
+                forced.append((kind0, lab0, gl0 - hdr))
+    for k in range(n + len(forced)):
         pl = rng.choice([0, 1, 2, 10, 100, 1000, 4000, 4080]) if rng.random() < 0.5 else rng.randrange(0, 4001)
         lab = rng.choice([LBL_A6, LBL_A3, LBL_BC, LBL_RU])
         pt = rng.choice([0x0600, 0x0800, 0xFFFF, 0x86DD])
         fid = rng.randrange(256)
+        kind = rng.choice("CFIE")
+        if k < len(forced):
+            kind, lab, pl = forced[k]
         pdu = bs_gen(k + 1, pl)
         ll = lab.wire_len()
-        kind = rng.choice("CFIE")
         if kind == "C":
             gl = 2 + ll + pl
             if gl > 4095:
